@@ -356,6 +356,21 @@ NodePathsV(node, d, dp, p) ==
     [] node.k = "pre" -> NodePathsV(Elem(node), d, dp, p)
     [] OTHER -> {}
 
+\* ---- C04: destination paths of the nodes whose input is absent (Parse) ----
+RECURSIVE AbsentDPP(_, _, _, _)
+AbsentDPP(node, in, dp, fe) ==
+  IF node.k = "pre" THEN AbsentDPP(Elem(node), in, dp, fe)
+  ELSE IF node.k # "struct" /\ ParseAbsent(in) THEN {dp}
+  ELSE CASE node.k = "struct" ->
+              IF in.t \in {"map", "nil", "missing"}
+              THEN UNION {AbsentDPP(node.kids[i].node, ChildIn(fe, node.kids[i].node, in, KeyOfIn(node.kids[i], fe, "parse", in)),
+                                    Append(dp, node.kids[i].key), ChildFe(fe)) : i \in DOMAIN node.kids}
+              ELSE {}
+         [] node.k = "slice" ->
+              IF in.t = "list" THEN UNION {AbsentDPP(Elem(node), in.items[i].val, Append(dp, Idx(i - 1)), fe) : i \in DOMAIN in.items} ELSE {}
+         [] node.k = "ptr" -> AbsentDPP(Elem(node), in, Append(dp, "*"), fe)
+         [] OTHER -> {}
+
 \* ---- C05: destination paths of the catching primitives that exist in a (reference) destination ----
 RECURSIVE CatchDP(_, _, _)
 CatchDP(node, dp, d) ==
